@@ -106,7 +106,8 @@ def run_history(sc, tag="h"):
     fails = []
     cfg = CONFIGS[sc["config"]]
     src = PRELUDE
-    steps = steps_of(sc["family"], sc["order"], sc["position"])
+    src += sc.get("extra_src", "")
+    steps = [tuple(x) for x in sc["steps"]] if "steps" in sc else steps_of(sc["family"], sc["order"], sc["position"])
     members = None
     if steps and steps[0][0] == "__FIELDS__":
         ms = members = steps[0][1]
@@ -165,8 +166,10 @@ def run_history(sc, tag="h"):
                 fails.append({"kind": "c02-equal-value-history", "clause": "equal-value-history", "config": sc["config"],
                               "scenario": sc, "step": i, "symptom": what, "texpr": steps[i][0], "vexpr": steps[i][1],
                               "source": src, "history": [list(s) for s in steps[:i + 1]],
-                              "key": json.dumps(["equal-value-history", sc["family"], sc["position"], steps[i][0]])})
-                break
+                              "key": json.dumps(["equal-value-history", sc.get("family"), sc.get("position"), steps[i][0]]
+                                                + ([steps[i][1]] if "steps" in sc else []))})
+                if "steps" not in sc:
+                    break
     finally:
         impl.drop_module(name)
         impl.clear_caches()
@@ -182,6 +185,35 @@ def scenarios(full: bool):
             for cfgname in (CONFIGS if full else ("default",)):
                 for o in orders:
                     yield {"family": fam, "order": o, "position": pos, "config": cfgname}
+
+
+# ---- string values whose TEXT is itself a JSON document / Python literal, under every string-carrying T ------------------
+# (seeded change C02-r6m2: Codec.decode decoded a str result "a second time" when it starts with a bracket)
+TEXTS = ['{"a": 1}', '["x","y"]', '[1,2,3]', '[true]', '{"k": "v"}', '[1, 2]', '{}', '[]', '"q"', 'null', '123', 'true', '1e5',
+         ' [1]', '[1] ', '{"a": [1, {"b": null}]}', '(1, 2)', "{'a': 1}", 'None', '[', '{"a"', '\\"', '[1,]', '"\\u0041"']
+TEXT_SRC = (
+    "Txt = typing.NewType('Txt', str)\n"
+    "TEXTS = " + repr(TEXTS) + "\n"
+    "LitT = typing.Literal[tuple(TEXTS)]\n"
+    "Tmpl = enum.Enum('Tmpl', {f'M{i}': t for i, t in enumerate(TEXTS)})\n"
+    "class STmpl(str, enum.Enum):\n    PAIR = '{\"k\": \"v\"}'\n    ARR = '[1,2,3]'\n    PLAIN = 'plain'\n"
+    "@dataclasses.dataclass\nclass Doc:\n    body: str\n    kind: Tmpl\n    alt: typing.Optional[Txt] = None\n"
+)
+
+
+def text_scenarios():
+    for i, t in enumerate(TEXTS):
+        lit = repr(t)
+        steps = [("str", lit), ("Txt", f"Txt({lit})"), ("typing.Optional[str]", lit), ("LitT", lit), ("Tmpl", f"Tmpl({lit})"),
+                 ("list[str]", f"[{lit}, 'x']"), ("dict[str, str]", "{" + f"{lit}: {lit}" + "}"),
+                 ("Doc", f"Doc(body={lit}, kind=Tmpl({lit}), alt=Txt({lit}))"), ("tuple[str, int]", f"({lit}, 1)")]
+        for cfgname in CONFIGS:
+            yield {"family": "text-json", "position": f"text{i}", "config": cfgname, "steps": [list(x) for x in steps],
+                   "extra_src": TEXT_SRC}
+    for cfgname in CONFIGS:
+        yield {"family": "text-json", "position": "strmixin", "config": cfgname, "extra_src": TEXT_SRC,
+               "steps": [["STmpl", "STmpl.PAIR"], ["STmpl", "STmpl.ARR"], ["STmpl", "STmpl.PLAIN"],
+                         ["list[STmpl]", "[STmpl.ARR, STmpl.PAIR]"]]}
 
 
 def family_ok():
@@ -200,7 +232,7 @@ def family_ok():
 def check(full: bool):
     fails, n = [], 0
     seen = set()
-    for i, sc in enumerate(scenarios(full)):
+    for i, sc in enumerate(list(scenarios(full)) + list(text_scenarios())):
         n += 1
         for f in run_history(sc, tag=str(i)):
             if f["key"] not in seen:
